@@ -375,7 +375,8 @@ func c13fail(rep *vh.Report, seed uint64, idx int, class string, pos int, kind .
 	}
 	// the kind of error the transport reports: a plain one, a deadline (net.Error with Timeout() true, what a socket
 	// returns when the peer stops reading), a broken pipe, a short write, EOF, "use of closed connection"
-	werrs := []error{errWrite, os.ErrDeadlineExceeded, syscall.EPIPE, io.ErrShortWrite, io.EOF, net.ErrClosed, &net.OpError{Op: "write", Net: "tcp", Err: os.ErrDeadlineExceeded}}
+	werrs := []error{errWrite, os.ErrDeadlineExceeded, syscall.EPIPE, io.ErrShortWrite, io.EOF, net.ErrClosed, &net.OpError{Op: "write", Net: "tcp", Err: os.ErrDeadlineExceeded},
+		&net.OpError{Op: "write", Net: "udp", Err: os.NewSyscallError("sendto", syscall.ECONNREFUSED)}, &net.OpError{Op: "write", Net: "udp", Err: syscall.ENOBUFS}, io.ErrClosedPipe}
 	werr := werrs[(idx/3+pos)%len(werrs)]
 	if len(kind) > 0 {
 		werr = werrs[kind[0]%len(werrs)]
@@ -572,7 +573,7 @@ func TestC13(t *testing.T) {
 	}
 	// every kind of write error for every transport-fault class
 	for _, class := range classes[:3] {
-		for kind := 0; kind < 7; kind++ {
+		for kind := 0; kind < 10; kind++ {
 			for _, pos := range []int{0, 3} {
 				job++
 				if job%nsh == shard {
